@@ -1,0 +1,49 @@
+//go:build verif
+
+package dns
+
+// Contracts checked by /verif (contract-based deductive verification).
+// This file is comment-only; it is compiled only with -tags=verif.
+
+//@ import internal "google.golang.org/grpc/internal/resolver/dns/internal"
+
+// ---- C56: pacing bookkeeping of the DNS watcher ---------------------------------------------------
+//
+// One goroutine. backoffIndex - 1 is the number of consecutive failed
+// iterations (lookup error, or an update the ClientConn rejected). In each
+// iteration: a failure waits Backoff(index as it was at the start of the
+// iteration) and increments the index; a success (lookup ok AND update accepted)
+// resets it to 1 and waits for ResolveNow but at least MinResolutionInterval.
+
+//@ func (*dnsResolver).watcher
+//@   prop C56
+//@   requires d != nil
+//@   loop 1 invariant d != nil
+//@   assert at call UpdateState#1 backoffIndex == athead(backoffIndex)
+//@   assert at call Backoff#1 err != nil && arg1 == athead(backoffIndex) && backoffIndex == athead(backoffIndex)
+//@   assert at call Add#1 err == nil && backoffIndex == 1 && arg1 == MinResolutionInterval
+//@   assert at call Add#2 err != nil && backoffIndex == athead(backoffIndex)
+
+// ---- C56: target parsing -----------------------------------------------------------------------------
+//
+// Return sites in source order: 1 empty target; 2 bare IP literal (default
+// port); 3 "host:" (empty port) is an error; 4 host:port, with "localhost" for an
+// empty host; 5 no port: default port appended; 6 anything else is an error.
+
+//@ func parseTarget
+//@   prop C56
+//@   assert at return 1 target == "" && result0 == "" && result1 == "" && result2 == internal.ErrMissingAddr
+//@   assert at return 2 target != "" && result0 == target && result1 == defaultPort && result2 == nil
+//@   assert at return 3 port == "" && result0 == "" && result1 == "" && result2 == internal.ErrEndsWithColon
+//@   assert at return 4 port != "" && result1 == port && result2 == nil && result0 != ""
+//@   assert at return 5 result2 == nil && result0 == host && result1 == port
+//@   assert at return 6 result2 != nil && result0 == "" && result1 == ""
+//@   assert at call SplitHostPort#2 arg0 == target+":"+defaultPort
+
+// formatIP: an address that does not parse is an error; IPv4 literals are kept,
+// everything else is bracketed.
+//@ func formatIP
+//@   prop C56
+//@   assert at return 1 result0 == "" && result1 != nil
+//@   assert at return 2 result0 == addr && result1 == nil && lastret("Is4") == 1
+//@   assert at return 3 result0 == "["+addr+"]" && result1 == nil && lastret("Is4") == 0
